@@ -15,6 +15,7 @@ runs to completion without any step of the work.
 -/
 import GoZero.C04.Proofs
 import GoZero.C04.ProofsSel
+import GoZero.C04.ProofsEng
 namespace GoZero.C04.Props
 open GoZero.C04
 
@@ -60,6 +61,88 @@ theorem deadline_only_shrinks_rest (duration : Int) (h : ReqHdr) (parent : Deadl
 theorem checkedTimeout_law (route confMs : Int) :
     checkedTimeout route confMs = (if 0 < route then route else confMs * 1000000) := by
   unfold checkedTimeout; rfl
+
+/-! ### which timeout reaches the middleware of a route (rest/server.go options, rest/engine.go addRoutes / bindRoute) -/
+
+/-- the options of one `AddRoutes` call are applied in order: the last `WithTimeout` / `WithSSE` decides
+(`WithSSE` resets the timeout to 0, i.e. back to the global one), other options leave it alone -/
+theorem groupTimeout_last_wins (opts : List RouteOpt) (t : Int) :
+    groupTimeout (opts ++ [.timeout t]) = t ∧ groupTimeout (opts ++ [.sse]) = 0 ∧
+    groupTimeout (opts ++ [.other]) = groupTimeout opts ∧ groupTimeout [] = 0 := by
+  simp [groupTimeout, List.foldl_append]
+
+/-- **route > global.**  On a server with the timeout middleware in its chain, whatever groups were registered
+in whatever order, the duration handed to `TimeoutHandler` for the routes of group `g` is that group's own timeout
+if it is positive, else the global `RestConf.Timeout` — the property's `Spec.routeTimeout`. -/
+theorem route_timeout_wiring (confMs : Int) (groups : List (List RouteOpt)) (g : Nat) :
+    (Eng.build confMs .on groups).duration g =
+      groups[g]?.map (fun opts => Spec.routeTimeout (groupTimeout opts) confMs) := by
+  obtain ⟨h1, h2, h3⟩ := build_fields confMs .on groups
+  unfold Eng.duration Eng.bound
+  rw [h1, h2, h3]
+  simp only [List.getElem?_map, Option.map_map]
+  rfl
+
+/-- a route's timeout does not depend on the other groups of the server (their number, order, timeouts) -/
+theorem route_timeout_independent_of_other_groups (confMs : Int) (groups groups' : List (List RouteOpt)) (g g' : Nat)
+    (h : groups[g]? = groups'[g']?) :
+    (Eng.build confMs .on groups).duration g = (Eng.build confMs .on groups').duration g' := by
+  rw [route_timeout_wiring, route_timeout_wiring, h]
+
+/-- without the middleware (`Middlewares.Timeout` off, or a user chain) no route has a timeout wrapper -/
+theorem no_middleware_no_timeout (confMs : Int) (mw : MwMode) (hmw : mw ≠ .on) (groups : List (List RouteOpt)) (g : Nat) :
+    (Eng.build confMs mw groups).duration g = groups[g]?.map (fun _ => 0) := by
+  obtain ⟨h1, h2, h3⟩ := build_fields confMs mw groups
+  unfold Eng.duration Eng.bound
+  rw [h1, h2, h3]
+  cases mw <;> simp_all [Function.comp_def]
+
+/-- `ng.timeout` (basis of http.Server's Read/WriteTimeout) is the maximum of the global timeout and every group's
+timeout — it is NOT what a route runs under (`route_timeout_wiring`), but it covers every route's duration. -/
+theorem engine_timeout_is_max (confMs : Int) (mw : MwMode) (groups : List (List RouteOpt)) :
+    let e := Eng.build confMs mw groups
+    confMs * 1000000 ≤ e.timeout ∧ (∀ g ∈ groups, groupTimeout g ≤ e.timeout) ∧
+    (e.timeout = confMs * 1000000 ∨ ∃ g ∈ groups, e.timeout = groupTimeout g) ∧
+    (∀ d ∈ e.bound, d ≤ e.timeout ∨ d ≤ 0) := by
+  intro e
+  obtain ⟨h1, h2, h3⟩ := foldl_addRoutes_timeout (Eng.new confMs mw) groups
+  obtain ⟨f1, f2, f3⟩ := build_fields confMs mw groups
+  have hnew : (Eng.new confMs mw).timeout = confMs * 1000000 := rfl
+  rw [hnew] at h1 h3
+  refine ⟨h1, h2, h3, ?_⟩
+  intro d hd
+  simp only [e, Eng.bound, f1, f2, f3, List.mem_map] at hd
+  obtain ⟨t, ⟨opts, hopts, rfl⟩, rfl⟩ := hd
+  have hle := h2 opts hopts
+  cases mw
+  · left
+    show checkedTimeout (groupTimeout opts) confMs ≤ (Eng.build confMs .on groups).timeout
+    unfold checkedTimeout
+    split
+    · exact hle
+    · exact h1
+  · right; exact Int.le_refl 0
+  · right; exact Int.le_refl 0
+
+/-- **End to end.**  A request to a route of group `g` (middleware on, not exempt, the route's timeout positive): the
+handler's context has a deadline no later than now + (the route's own timeout if set, else the global one) and no
+later than the caller's — whatever else is registered on the server. -/
+theorem route_deadline_only_shrinks (confMs : Int) (groups : List (List RouteOpt)) (g : Nat) (opts : List RouteOpt)
+    (hg : groups[g]? = some opts) (h : ReqHdr) (parent : Deadline) (now : Int)
+    (hw : restWraps (Spec.routeTimeout (groupTimeout opts) confMs) h = true) :
+    ∃ dur d, (Eng.build confMs .on groups).duration g = some dur ∧ dur = Spec.routeTimeout (groupTimeout opts) confMs ∧
+      restDeadline dur h parent now = some d ∧ d ≤ now + dur ∧ NoLaterThan (some d) parent := by
+  refine ⟨Spec.routeTimeout (groupTimeout opts) confMs, ?_⟩
+  obtain ⟨d, hd, h1, h2⟩ := (deadline_only_shrinks_rest (Spec.routeTimeout (groupTimeout opts) confMs) h parent now).1 hw
+  exact ⟨d, by rw [route_timeout_wiring, hg]; rfl, rfl, hd, h1, h2⟩
+
+/-- the seeded scenario: a route without its own timeout next to a one-hour route still runs under the global 3 s -/
+example : (Eng.build 3000 .on [[.timeout 3600000000000], [], [.other, .sse]]).bound = [3600000000000, 3000000000, 3000000000] ∧
+    (Eng.build 3000 .on [[.timeout 3600000000000], [], [.other, .sse]]).timeout = 3600000000000 := by decide
+example : (Eng.build 3000 .chain [[.timeout 5000000000], []]).bound = [0, 0] := by decide
+example : groupTimeout [.timeout 5, .sse] = 0 ∧ groupTimeout [.sse, .other, .timeout 5] = 5 := by decide
+example : restDeadline ((Eng.build 3000 .on [[.timeout 3600000000000], []]).duration 1 |>.getD 0) ⟨false, false⟩ none 100
+    = some 3000000100 := by decide
 
 /-- zRPC server interceptor: always wraps, with the per-method timeout if one is configured. -/
 theorem deadline_only_shrinks_srv (dflt : Int) (mts : List (Nat × Int)) (method : Nat) (parent : Deadline) (now : Int) :
